@@ -295,9 +295,6 @@ func TestProp(t *testing.T) {
 				if r.Quick() && (n*7+ui+int(r.Seed()))%40 != 0 {
 					continue
 				}
-				if r.Thorough() && (n+ui+int(r.Seed()))%3 != 0 {
-					continue
-				}
 				jobs = append(jobs, job{ck, n, u})
 			}
 		}
